@@ -820,7 +820,10 @@ def _select(selector, context="root"):
             captures=(selector.with_focus(),),
             immediate=False,
         )
-    assert isinstance(selector, Call)
+    if not isinstance(selector, Call):
+        raise SelectorError(
+            f"Invalid selector: expected a single call path, got {selector}"
+        )
     return selector
 
 
